@@ -248,3 +248,38 @@ fn bu_queue_two_require_now_then_pop_chain() {
   }); });
   ::std::mem::forget(store);
 }
+
+/// One-level `BottomUpContext::require` from inside an executing task: an already consistent task returns its cached output;
+/// a task that never ran is executed (once); an existing task that was not scheduled (nothing affects it) is reused without
+/// executing. In all cases the dependency is recorded with the checker passed and a stamp of the output returned (C09).
+//@h props=C04,C09 tier=quick unwind=14 stubs=sort,boxslice timeout=900 fieldsens=1024
+fn bu_require_one_level() {
+  let mut pie = Pie::with_tracker(());
+  let mut s = pie.new_session();
+  unsafe { PROG[1] = [Ins::Set(5), Ins::End, Ins::End, Ins::End]; }
+  split(3, |case| {
+    let si = &mut s.0;
+    let t = si.store.get_or_create_task_node(&P(0));
+    let u = si.store.get_or_create_task_node(&P(1));
+    if case != 1 { si.store.set_task_output(&u, Box::new(33u8)); }
+    if case == 0 { si.consistent.insert(u); }
+    si.current_executing_task = Some(t);
+    exec_reset();
+    let mut ctx = BottomUpContext::new(si);
+    let got = ctx.require(&P(1), EqualsChecker);
+    let expect: u8 = if case == 1 { 5 } else { 33 };
+    assert!(got == expect, "C04/C09 bottom-up require returns the required task's up-to-date output");
+    assert!(exec_count(1) == if case == 1 { 1 } else { 0 }, "C04 only a task that never ran is executed; consistent and unaffected tasks are reused");
+    assert!(ctx.session.consistent.contains(&u), "C04 the required task is consistent for the rest of the build");
+    let mut n = 0;
+    for d in ctx.session.store.get_dependencies_from_task(&t) {
+      match d {
+        Dependency::Require(td) => assert!(fp_val(td.checker()) == 0x5000 && fp_val(td.stamp()) == 0x1000 | expect as u16, "C09 bottom-up require dependency is stamped from the output returned to the requirer"),
+        _ => assert!(false, "C08 the reserved require edge is upgraded to a real require dependency"),
+      }
+      n += 1;
+    }
+    assert!(n == 1, "C08 one require performed, one dependency recorded");
+  });
+  ::std::mem::forget(pie);
+}
